@@ -534,3 +534,581 @@ def rule_fill_accumulate(rep, fb, floor=20, name="PAIR.fill-accumulate"):
                                     detail="advanced by the written length; total adds the same")
             cs.each_block_cont(body, onblock)
     return r.done()
+
+
+# ------------------------------------------------------------------------------------------------
+# L-8  raw stores (p[i] = v, *p = v) outside kernels go to storage created in the function
+
+_RAW_OWNERS = {
+    ("GrowableBuffer::append", "ptr_"): "GrowableBuffer is the owner of its buffer; append writes at length_ < reserved_ only (BUILDER.append-only checks the discipline)",
+}
+
+
+def rule_raw_store(rep, fb, floor=8, name="FRESH.raw-store"):
+    r = rep.rule(name, "outside the kernels, the Forth virtual machine and LayoutBuilder (stateful by design), every store through a raw pointer (p[i] = v, *p = v, with p a pointer variable, a reinterpret_cast or shared_ptr::get) "
+                 "writes storage created in the same function, a non-const pointer parameter (a declared output), or the owner's own buffer in a tabled mutator - never the buffer of an input object", floor=floor)
+    cs.load_field_types(fb)
+    if not cs.FRESH_RETURNERS:
+        for _ in range(4):
+            nxt = cs.compute_fresh_returners(fb)
+            if nxt == cs.FRESH_RETURNERS:
+                break
+            cs.FRESH_RETURNERS = nxt
+    for f in fb.lib_funcs(inst=False):
+        fl = f["file"].lower()
+        if "/forth/" in fl or "/layoutbuilder/" in fl or "kernel-dispatch" in fl or "kernel-utils" in fl:
+            continue
+        decls = cs.local_decls(f)
+        ptypes = dict((p[0], p[1]) for p in f["params"])
+        cnt = {}
+        for s in find_all(f["body"], lambda k: k[0] in ("assign", "aug")):
+            lhs = s[1] if s[0] == "assign" else s[2]
+            if lhs[0] not in ("idx", "deref"):
+                continue
+            base = lhs[1]
+            raw = False
+            if base[0] in ("deref", "cast"):
+                raw = True
+            elif base[0] == "mcall" and base[1] in ("get", "data"):
+                raw = True
+            elif base[0] == "var":
+                ds = decls.get(base[1]) or []
+                t = ds[0][2] if ds else ptypes.get(base[1], "")
+                raw = "*" in str(t)
+            if not raw:
+                continue
+            o = cs.origin(base, f, decls)
+            nm = cs.root_ident(base) or "?"
+            cnt[nm] = cnt.get(nm, 0) + 1
+            key = "%s#%s#%d" % (f["qual"], nm, cnt[nm])
+            where = "%s:%d" % (f["file"], s[-1])
+            if o[0] == "fresh":
+                r.ok(key, "store into %s" % o[1])
+                continue
+            if o[0] == "param" and base[0] == "var" and "*" in str(ptypes.get(base[1], "")) and not str(ptypes.get(base[1], "")).replace(" ", "").startswith("const"):
+                r.ok(key, "declared output: non-const pointer parameter")
+                continue
+            if o[0] == "member" and (f["qual"], o[1]) in _RAW_OWNERS:
+                r.excepted(key, _RAW_OWNERS[(f["qual"], o[1])])
+                r.ok(key)
+                continue
+            r.fail(key, where, "%s stores through a raw pointer into %s '%s' - storage it did not create (an input's buffer is modified in place)" % (f["qual"], o[0], o[1]))
+    return r.done()
+
+
+# ------------------------------------------------------------------------------------------------
+# L-9  a NumpyArray is rebuilt around (ptr, byteoffset) of ONE buffer owner
+
+def _buf_owner(e, kind):
+    """owner of a buffer pointer / byte offset expression: ('obj', repr) for X.ptr_ / X.ptr() / X.byteoffset_ / X.byteoffset(), ('zero',) for literal 0,
+    ('fresh',) for an allocation or a call result, None if not recognisable (a variable: see its definitions)"""
+    while e[0] in ("cast", "narrow"):
+        e = e[3]
+    names = ("ptr_", "ptr") if kind == "ptr" else ("byteoffset_", "byteoffset")
+    if e[0] == "member" and e[2] in names:
+        return ("obj", repr(_noline(e[1])))
+    if e[0] == "mcall" and e[1] in names and not e[4]:
+        return ("obj", repr(_noline(e[3])))
+    if kind == "off" and e[0] == "const" and e[1] == 0:
+        return ("zero",)
+    if kind == "ptr" and e[0] in ("call", "ctor", "make", "mcall"):
+        return ("fresh",)
+    if kind == "off" and e[0] in ("bin", "un", "mcall", "call"):
+        return ("computed",)
+    return None
+
+
+def _compatible(po, bo):
+    if po is None or bo is None:
+        return True     # not decidable structurally: not an obligation
+    if bo == ("computed",):
+        return True     # an offset computed from strides (getitem_at / range): its base is checked by the ptr side only
+    if po == ("fresh",):
+        return bo == ("zero",)
+    if po[0] == "obj":
+        return bo == po
+    return True
+
+
+def rule_ptr_byteoffset(rep, fb, floor=30, name="NUMPY.ptr-byteoffset"):
+    r = rep.rule(name, "a NumpyArray is constructed around the buffer pointer and the byte offset of the same owner (X.ptr_ with X.byteoffset_, a fresh allocation with 0); when the pointer is held in a local that is "
+                 "re-assigned on some path, the local holding the offset is re-assigned in the same block from the same owner - otherwise reads start at a stale offset into the wrong buffer", floor=floor)
+    for f in fb.lib_funcs(inst=False):
+        cnt = [0]
+        fdecls = cs.local_decls(f)
+
+        def defs_of(var):
+            """[(block-id, owner-expression)] over the declaration and every assignment of var"""
+            out = []
+
+            def onb(stmts, cont):
+                for s in stmts:
+                    if s[0] == "decl" and s[1] == var:
+                        out.append((id(stmts), s[3], s[-1]))
+                    if s[0] == "assign" and s[1] == ("var", var):
+                        out.append((id(stmts), s[2], s[-1]))
+            cs.each_block_cont(f["body"], onb)
+            return out
+        def is_numpy(owner):
+            """the owner object is a NumpyArray (only those have a byte offset into their buffer)"""
+            if owner is None or owner[0] != "obj":
+                return True
+            if owner[1] == repr(("this",)):
+                return (f.get("cls") or "") == "NumpyArray"
+            for v, ds in fdecls.items():
+                if owner[1] == repr(("var", v)):
+                    return any("NumpyArray" in str(d[2]) for d in ds)
+            for pn, pt in f["params"]:
+                if owner[1] == repr(("var", pn)):
+                    return "NumpyArray" in pt
+            return False
+
+        def whole_copy_source(pv):
+            """a fresh buffer filled by copying from X.ptr_.get() (the base pointer, offset not applied) keeps X's offsets"""
+            for c in find_all(f["body"], lambda k: k[0] == "call"):
+                args = c[2]
+                if any(find_all(x, lambda k: k == ("var", pv)) for x in args):
+                    for x in args:
+                        for mm in find_all(x, lambda k: k[0] == "member" and k[2] == "ptr_"):
+                            return ("obj", repr(_noline(mm[1])))
+            return None
+        for m in find_all(f["body"], lambda k: k[0] in ("make", "ctor") and "NumpyArray" in str(k[1]) and "Form" not in str(k[1]) and len(k[2]) >= 8):
+            a = m[2]
+            P, B = a[2], a[5]
+            cnt[0] += 1
+            key = "%s#NumpyArray#%d" % (f["qual"], cnt[0])
+            where = "%s:%d" % (f["file"], m[-1] if isinstance(m[-1], int) else f["line"])
+            po, bo = _buf_owner(P, "ptr"), _buf_owner(B, "off")
+            pv = P[1] if P[0] == "var" else None
+            bv = B[1] if B[0] == "var" else None
+            problems = []
+            if not is_numpy(po):
+                r.ok(key, "buffer owner is not a NumpyArray (no byte offset of its own)")
+                continue
+            if pv is None and bv is None:
+                if not _compatible(po, bo):
+                    problems.append("pointer of %s with byte offset of %s" % (po, bo))
+            elif pv is not None:
+                pdefs = defs_of(pv)
+                bdefs = defs_of(bv) if bv else []
+                if not pdefs:
+                    r.ok(key, "pointer is a parameter")
+                    continue
+                for blk, pe, line in pdefs:
+                    if pe is None:
+                        continue
+                    o = _buf_owner(pe, "ptr")
+                    if o == ("fresh",):
+                        o = whole_copy_source(pv) or o
+                    if not is_numpy(o):
+                        continue
+                    if bv:
+                        same = [be for bb, be, bl in bdefs if bb == blk and be is not None]
+                        if not same:
+                            # the offset variable is not touched where the pointer is (re)bound
+                            init_owner = [_buf_owner(be, "off") for bb, be, bl in bdefs if be is not None]
+                            if o is not None and not any(_compatible(o, x) for x in init_owner if x is not None) or (o == ("fresh",) and not any(x == ("zero",) for x in init_owner)):
+                                problems.append("`%s` is bound to %s at line %d but `%s` is not re-bound in that block" % (pv, "a fresh buffer" if o == ("fresh",) else o, line, bv))
+                            continue
+                        if not any(_compatible(o, _buf_owner(be, "off")) for be in same):
+                            problems.append("`%s` is bound to %s at line %d while `%s` is bound to %s" % (pv, o, line, bv, [_buf_owner(be, "off") for be in same]))
+                    else:
+                        if not _compatible(o, bo):
+                            problems.append("`%s` is bound to %s at line %d but the byte offset argument is %s" % (pv, "a fresh buffer" if o == ("fresh",) else o, line, bo))
+            r.check(not problems, key, where, "%s constructs a NumpyArray whose buffer pointer and byte offset come from different owners: %s" % (f["qual"], "; ".join(problems)[:300]),
+                    detail="pointer and offset from one owner")
+    return r.done()
+
+
+# ------------------------------------------------------------------------------------------------
+# L-10  arms of a dtype switch that call the same helper are clones of one another modulo the element type
+
+def _abstract_type(x, ctypes):
+    """replace the arm's own element type(s) by T in type strings / template arguments; drop line numbers"""
+    if isinstance(x, tuple):
+        if x and x[0] in ("call", "mcall", "ctor", "make") and isinstance(x[-1], int):
+            x = x[:-1]
+        if x and x[0] in ("break",):
+            return ("break",)
+        if x and x[0] in ("assign", "aug", "expr", "decl", "return", "throw", "if", "for", "while", "foreach", "switch") and isinstance(x[-1], int):
+            x = x[:-1]
+        return tuple(_abstract_type(y, ctypes) for y in x)
+    if isinstance(x, str):
+        y = x.replace("std::", "")
+        for ct in sorted(ctypes, key=len, reverse=True):
+            if ct and ct in y:
+                y = y.replace(ct, "T")
+        return y
+    return x
+
+
+def rule_dtype_arm_clones(rep, fb, floor=100, name="CLONE.dtype-arms"):
+    r = rep.rule(name, "within one switch over util::dtype, the arms that call the same helper (name taken after abstracting the element type) are identical once the arm's element type is abstracted: "
+                 "an arm that passes a different buffer, length or flag than its siblings is a copy-paste slip", floor=floor)
+    for f in fb.lib_funcs(inst=False):
+        nsw = [0]
+
+        def visit(stmts, f=f):
+            for s in stmts:
+                if s[0] == "switch":
+                    arms = []
+                    for labels, body in s[2]:
+                        dts = [l[1].split("::")[-1] for l in labels if isinstance(l, tuple) and l[0] == "enum" and "dtype::" in l[1]]
+                        if not dts:
+                            continue
+                        cts = {_CTYPE.get(d) for d in dts} - {None}
+                        if not cts or find_all(body, lambda k: k[0] == "switch"):
+                            continue
+                        if body and body[0][0] == "throw":
+                            continue
+                        calls = find_all(body, lambda k: (k[0] == "call" and k[1][0] == "fn") or (k[0] == "mcall" and k[1] not in ("data", "get", "ptr", "length", "size", "shape", "strides")))
+                        if not calls:
+                            continue
+                        callee = _abstract_type(calls[0][1], cts) if calls[0][0] == "call" else ("m", calls[0][1])
+                        arms.append((",".join(dts), repr(callee), repr(_abstract_type(tuple(body), cts))))
+                    if arms:
+                        nsw[0] += 1
+                        groups = {}
+                        for dt, callee, nf in arms:
+                            groups.setdefault(callee, []).append((dt, nf))
+                        for callee, members in groups.items():
+                            if len(members) < 3:
+                                continue
+                            forms = {}
+                            for dt, nf in members:
+                                forms.setdefault(nf, []).append(dt)
+                            major = max(forms.items(), key=lambda kv: len(kv[1]))
+                            for nf, dts in forms.items():
+                                for dt in dts:
+                                    key = "%s#switch%d#case %s" % (f["qual"], nsw[0], dt)
+                                    r.check(nf == major[0] or len(major[1]) < 2 * len(dts), key, "%s:%d" % (f["file"], s[-1]),
+                                            "%s: the arm `case util::dtype::%s` of the switch at line %d differs from its %d sibling arms (%s ...) beyond the element type" % (f["qual"], dt, s[-1], len(major[1]), ",".join(major[1][:3])),
+                                            detail="clone of its siblings modulo element type")
+                for b in cs.sub_blocks(s):
+                    visit(b)
+        visit(f["body"])
+    return r.done()
+
+
+# ------------------------------------------------------------------------------------------------
+# L-11  NumpyArray hands its raw data pointer to stride-unaware code only after establishing contiguity
+
+_CONTIG_TABLE = {
+    "NumpyArray::sort_data": "referenced from nowhere (dead code); NumpyArray::sort_next, which tests iscontiguous(), is what sorting uses",
+    "NumpyArray::as_unique_strings": "only caller is ListOffsetArray64::is_unique on string content, which reads only the outer length of the result; string content is a 1-d contiguous uint8 buffer by the string behaviour's contract",
+    "NumpyArray::deep_copy": "the call sits in the branch `ptr_.get() == contiguous().ptr().get()`, i.e. contiguous() returned this very buffer: the array is contiguous there",
+}
+
+
+def rule_contiguous_guard(rep, fb, floor=40, name="CONTIG.data-guard"):
+    r = rep.rule(name, "in NumpyArray methods, data() of the array itself is passed to a helper or kernel that does not also receive the strides only on paths that have tested iscontiguous() "
+                 "(non-contiguous arrays are first converted with contiguous() / toRegularArray()): otherwise consecutive buffer items are read instead of the view's items", floor=floor)
+
+    def isdata(k):
+        return k[0] == "mcall" and k[1] == "data" and k[3] == ("this",)
+
+    def contig_test(e):
+        return bool(find_all(e, lambda k: k[0] == "mcall" and k[1] == "iscontiguous" and k[3] == ("this",)))
+    for f in fb.lib_funcs(inst=False):
+        if (f.get("cls") or "") != "NumpyArray":
+            continue
+        cnt = {}
+
+        def onblock(stmts, cont, f=f, cnt=cnt):
+            for i, s in enumerate(stmts):
+                for c in find_all(tuple(cs.head_exprs(s)), lambda k: k[0] in ("call", "mcall")):
+                    args = c[2] if c[0] == "call" else c[4]
+                    if c[0] == "mcall" and c[1] == "data":
+                        continue
+                    if not any(find_all(a, isdata) for a in args):
+                        continue
+                    nm = (c[1] if c[0] == "mcall" else str(c[1][1])).replace("kernel::", "")
+                    cnt[nm] = cnt.get(nm, 0) + 1
+                    key = "%s#%s#%d" % (f["qual"], nm, cnt[nm])
+                    where = "%s:%d" % (f["file"], c[-1])
+                    strideaware = any(find_all(a, lambda k: k == ("member", ("this",), "strides_") or (k[0] == "mcall" and k[1] == "strides") or (k[0] == "var" and k[1].startswith("stride"))) for a in args)
+                    if strideaware:
+                        r.ok(key, "strides are passed along")
+                        continue
+                    guarded = False
+                    for blk, idx in [(stmts, i)] + [(pb, pi) for pb, pi, pk in cont]:
+                        for p in blk[:idx]:
+                            if p[0] == "if" and contig_test(p[1]) and (cs.has_exit(p) or p[3]):
+                                guarded = True
+                        if blk is not stmts and blk[idx][0] == "if" and contig_test(blk[idx][1]):
+                            guarded = True
+                    if not guarded and f["qual"] in _CONTIG_TABLE:
+                        r.excepted(key, _CONTIG_TABLE[f["qual"]])
+                        r.ok(key)
+                        continue
+                    r.check(guarded, key, where, "%s passes data() of a possibly strided array to %s (which receives no strides) on a path that has not tested iscontiguous()" % (f["qual"], nm),
+                            detail="dominated by an iscontiguous() test")
+        cs.each_block_cont(f["body"], onblock)
+    return r.done()
+
+
+# ------------------------------------------------------------------------------------------------
+# L-12  dimensions of one NumpyArray vs nesting levels of the whole layout
+
+def rule_shape_subscript(rep, fb, floor=60, name="DIM.shape-subscript"):
+    r = rep.rule(name, "a subscript of shape_/strides_ (or of a local copy named shape/strides) is a dimension number of this array: it never consists of a layout nesting level (depth, axis, posaxis) alone - "
+                 "only a difference of two levels is a dimension", floor=floor)
+    levels_d = {"depth"}
+    levels_a = {"axis", "posaxis", "negaxis"}
+    for f in fb.lib_funcs(inst=False):
+        if (f.get("cls") or "") not in ("NumpyArray", "NumpyForm"):
+            continue
+        cnt = [0]
+        for ix in find_all(f["body"], lambda k: k[0] == "idx"):
+            base = ix[1]
+            while base[0] in ("cast", "deref"):
+                base = base[3] if base[0] == "cast" else base[1]
+            nm = base[2] if base[0] == "member" else (base[1] if base[0] == "var" else None)
+            if nm not in ("shape_", "strides_", "shape", "strides", "inner_shape_", "flatshape", "flatstrides", "nextshape", "nextstrides", "outshape", "outstrides"):
+                continue
+            cnt[0] += 1
+            vs = {v[1] for v in find_all(ix[2], lambda k: k[0] == "var")}
+            hasd, hasa = bool(vs & levels_d), bool(vs & levels_a)
+            key = "%s#%s[%d]" % (f["qual"], nm, cnt[0])
+            r.check(not (hasd or hasa) or (hasd and hasa), key, "%s:%d" % (f["file"], f["line"]),
+                    "%s subscripts %s with the layout nesting level %s (not a dimension of this array)" % (f["qual"], nm, sorted(vs & (levels_d | levels_a))), detail="subscript is a dimension number")
+    return r.done()
+
+
+# ------------------------------------------------------------------------------------------------
+# L-13  regular dimensions are wrapped from the innermost (last) to the outermost (first)
+
+def rule_regular_nesting(rep, fb, floor=3, name="NEST.regular-order"):
+    r = rep.rule(name, "a loop that wraps a node/type in one Regular* per dimension (out = Regular*(..., out, shape[i])) visits the dimensions from the last to the first, so that the first dimension ends up outermost", floor=floor)
+    for f in fb.lib_funcs(inst=False):
+        cnt = [0]
+        for lp in find_all(f["body"], lambda k: k[0] in ("for", "foreach", "while")):
+            body = lp[4] if lp[0] == "foreach" else lp[2]
+            wraps = [a for a in body if a[0] == "assign" and a[1][0] == "var" and a[2][0] in ("make", "ctor") and str(a[2][1]).replace("awkward::", "") in ("RegularType", "RegularArray", "RegularForm")
+                     and any(x == a[1] for x in a[2][2])]
+            wraps = [a for a in wraps if not any(d[0] == "decl" and d[1] == a[1][1] for d in body)]   # the wrapped value accumulates across iterations
+            if not wraps:
+                continue
+            cnt[0] += 1
+            key = "%s#wrap%d" % (f["qual"], cnt[0])
+            where = "%s:%d" % (f["file"], lp[-1])
+            if lp[0] != "for":
+                r.fail(key, where, "%s wraps %s per dimension in a %s loop, which visits the dimensions first-to-last: the nesting comes out reversed" % (f["qual"], wraps[0][2][1], "range-for" if lp[0] == "foreach" else lp[0]))
+                continue
+            incs = lp[3]
+            down = bool(incs) and all((x[0] == "aug" and x[1] == "-") or (x[0] == "un" and "--" in str(x[1])) or (x[0] == "expr" and "--" in repr(x)) for x in incs)
+            r.check(down, key, where, "%s wraps %s per dimension in a loop that does not count the dimension index down" % (f["qual"], wraps[0][2][1]), detail="dimension index counts down")
+    return r.done()
+
+
+# ------------------------------------------------------------------------------------------------
+# L-14  bit-assembly state is reset for every item
+
+def _loop_body(lp):
+    return lp[4] if lp[0] == "foreach" else lp[2]
+
+
+def rule_bit_accumulator_reset(rep, fb, floor=4, name="LOOP.bit-accumulator-reset", kernels=True):
+    r = rep.rule(name, "a value assembled bit by bit in an inner loop (v |= ..., together with the shift count used in `<< s` and advanced there) and consumed once per iteration of the enclosing loop is "
+                 "re-initialised inside the enclosing loop before the inner loop starts: otherwise item k is OR-ed on top of items 0..k-1", floor=floor)
+    funcs = list(fb.lib_funcs(inst=False))
+    if kernels:
+        for p, tu in sorted(fb.kernel_tus().items()):
+            funcs += [f for f in tu["funcs"] if not f["inst"]]
+    for f in funcs:
+        cnt = {}
+        for L1 in find_all(f["body"], lambda k: k[0] in ("for", "foreach", "while", "dowhile")):
+            b1 = _loop_body(L1)
+            for j, st in enumerate(b1):
+                if st[0] not in ("for", "foreach", "while", "dowhile"):
+                    continue
+                L2 = st
+                acc = set()
+                inner = [x for x in find_all(tuple(_loop_body(L2)), lambda k: k[0] in ("for", "foreach", "while", "dowhile"))]
+
+                def direct(node):
+                    return not any(find_all(x, lambda k: k is node) for x in inner)
+                for a in find_all(L2, lambda k: k[0] == "aug" and k[1] == "|" and k[2][0] == "var"):
+                    if direct(a):
+                        acc.add(a[2][1])
+                if not acc:
+                    continue
+                # shift counts: s in `<< s` inside L2 that L2 itself advances
+                for sh in find_all(L2, lambda k: k[0] == "bin" and k[1] == "<<"):
+                    for v in find_all(sh[3], lambda k: k[0] == "var"):
+                        if find_all(L2, lambda k: k[0] == "aug" and k[2] == ("var", v[1])):
+                            acc.add(v[1])
+                for v in sorted(acc):
+                    # declared inside L1's body (fresh per iteration) -> nothing to reset
+                    if any(d[0] == "decl" and d[1] == v for d in b1[:j]):
+                        declared_in = [d for d in b1[:j] if d[0] == "decl" and d[1] == v]
+                        cnt[v] = cnt.get(v, 0) + 1
+                        key = "%s#%s#%d" % (f["qual"], v, cnt[v])
+                        r.check(declared_in[0][3] is not None or any(t[0] == "assign" and t[1] == ("var", v) for t in b1[:j]), key, "%s:%d" % (f["file"], L2[-1]),
+                                "%s: `%s` is declared per item without an initial value before the bit-assembly loop at line %d" % (f["qual"], v, L2[-1]), detail="initialised per item")
+                        continue
+                    if find_all(tuple(b1[:j]), lambda k: k[0] == "decl" and k[1] == v):
+                        continue
+                    cnt[v] = cnt.get(v, 0) + 1
+                    key = "%s#%s#%d" % (f["qual"], v, cnt[v])
+                    reset = any(t[0] == "assign" and t[1] == ("var", v) for t in b1[:j])
+                    r.check(reset, key, "%s:%d" % (f["file"], L2[-1]),
+                            "%s: `%s` is assembled in the inner loop at line %d but is not re-initialised inside the enclosing loop at line %d - each item continues from the previous item's bits" % (f["qual"], v, L2[-1], L1[-1]),
+                            detail="reset inside the enclosing loop")
+    return r.done()
+
+
+# ------------------------------------------------------------------------------------------------
+# L-15  string equality tests compare whole strings
+
+def rule_string_equality(rep, fb, floor=3, name="STR.exact-compare"):
+    r = rep.rule(name, "a C-string equality test (`strcmp/strncmp/memcmp(...) == 0`) compares the whole strings: strcmp, or a length-limited comparison whose condition also tests that the two lengths are equal - "
+                 "strncmp(a, b, len(a)) alone accepts every prefix of b (including the empty string)", floor=floor)
+    for f in fb.lib_funcs(inst=False):
+        cnt = [0]
+
+        def onblock(stmts, cont, f=f, cnt=cnt):
+            for s in stmts:
+                for e in cs.head_exprs(s):
+                    for c in find_all((e,), lambda k: k[0] == "call" and k[1][0] == "fn" and str(k[1][1]).split("::")[-1] in ("strcmp", "strncmp", "memcmp")):
+                        cnt[0] += 1
+                        nm = str(c[1][1]).split("::")[-1]
+                        key = "%s#%s#%d" % (f["qual"], nm, cnt[0])
+                        where = "%s:%d" % (f["file"], c[-1])
+                        if nm == "strcmp":
+                            r.ok(key, "strcmp")
+                            continue
+                        # length-limited: the enclosing condition must also compare lengths (an == between two length-like expressions)
+                        lens_eq = find_all((e,), lambda k: k[0] == "bin" and k[1] == "==" and all(find_all((x,), lambda m: (m[0] == "mcall" and m[1] in ("length", "size")) or (m[0] == "call" and "strlen" in str(m[1][1])) or (m[0] == "var" and "len" in m[1].lower())) for x in (k[2], k[3])))
+                        r.check(bool(lens_eq), key, where, "%s tests string equality with %s limited to the length of one operand and no test that the lengths are equal: every prefix (and the empty string) compares equal" % (f["qual"], nm),
+                                detail="lengths compared too")
+        cs.each_block_cont(f["body"], onblock)
+    return r.done()
+
+
+# ------------------------------------------------------------------------------------------------
+# L-16  parallel vectors built by sibling loops get their elements in the same order
+
+def _push_shape(body):
+    """shape of a loop body made only of (possibly guarded) push_back statements: ('P',) / ('G', cond, (...)) items, or None"""
+    out = []
+    for s in body:
+        if s[0] == "expr" and s[1][0] == "mcall" and s[1][1] in ("push_back", "emplace_back"):
+            out.append(("P",))
+        elif s[0] == "if" and not s[3]:
+            inner = _push_shape(s[2])
+            if inner is None:
+                return None
+            out.append(("G", repr(_noline(s[1])), tuple(inner)))
+        else:
+            return None
+    return tuple(out) if out else None
+
+
+def _push_target(body):
+    t = set()
+    for m in find_all(tuple(body), lambda k: k[0] == "mcall" and k[1] in ("push_back", "emplace_back")):
+        t.add(repr(_norm_len(m[3], {})))
+    return t
+
+
+def rule_parallel_build(rep, fb, floor=1, name="PAIR.parallel-build"):
+    r = rep.rule(name, "when one function fills two different vectors with loops over the same range whose bodies are the same set of guarded/unguarded push_back steps (contents and their field names, contents and "
+                 "their forms ...), the steps come in the same order in both loops: the vectors are read back by position", floor=floor)
+    for f in fb.lib_funcs(inst=False):
+        loops = []
+        for lp in find_all(f["body"], lambda k: k[0] in ("for", "foreach")):
+            body = _loop_body(lp)
+            sh = _push_shape(body)
+            if sh is None or len(sh) < 2:
+                continue
+            hdr = repr(_noline(lp[1])) if lp[0] == "for" else repr(_noline(lp[3]))
+            loops.append((hdr, sh, _push_target(body), lp))
+        n = 0
+        for i in range(len(loops)):
+            for j in range(i + 1, len(loops)):
+                a, b = loops[i], loops[j]
+                if a[0] != b[0] or a[2] == b[2]:
+                    continue
+                if sorted(map(repr, a[1])) != sorted(map(repr, b[1])):
+                    continue
+                n += 1
+                key = "%s#loops%d" % (f["qual"], n)
+                r.check(a[1] == b[1], key, "%s:%d" % (f["file"], b[3][-1]),
+                        "%s fills two vectors with loops over the same range (lines %d and %d) made of the same guarded/unguarded push_back steps, but in a different order: the element inserted under the guard lands at different positions in the two vectors"
+                        % (f["qual"], a[3][-1], b[3][-1]), detail="same step order")
+    return r.done()
+
+
+# ------------------------------------------------------------------------------------------------
+# L-17  a derived VirtualArray caches the depths of the form its generator was given
+
+def rule_virtual_depths(rep, fb, floor=6, name="FORWARD.virtual-depths"):
+    r = rep.rule(name, "when a VirtualArray method builds a derived VirtualArray around a SliceGenerator, the depth cache (purelist_depth / minmax_depth / branch_depth answered without materialising) is filled from "
+                 "the form given to that generator whenever that form is a projection (getitem_field/getitem_fields) of the original's - only a form-preserving slice may copy the original's cache (`this`)", floor=floor)
+    fs = [f for f in fb.lib_funcs(inst=False) if (f.get("cls") or "") == "VirtualArray"]
+    if len(fs) < 30:
+        raise AnalysisError("VirtualArray methods not found")
+    for f in fs:
+        gens = find_all(f["body"], lambda k: k[0] in ("make", "ctor") and "SliceGenerator" in str(k[1]) and k[2])
+        sets = find_all(f["body"], lambda k: k[0] == "mcall" and k[1] == "set_cache_depths_from" and k[4])
+        if not gens or not sets:
+            continue
+        decls = cs.local_decls(f)
+        for n, g in enumerate(gens, 1):
+            F = g[2][0]
+            projected = False
+            if F[0] == "var":
+                defs = [d[3] for d in decls.get(F[1]) or [] if d[3] is not None] + [a[2] for a in find_all(f["body"], lambda k: k[0] == "assign" and k[1] == F)]
+                projected = any(find_all((d,), lambda k: k[0] == "mcall" and k[1] in ("getitem_field", "getitem_fields")) for d in defs)
+            key = "%s#generator%d" % (f["qual"], n)
+            where = "%s:%d" % (f["file"], g[-1] if isinstance(g[-1], int) else f["line"])
+            if not projected:
+                r.ok(key, "form-preserving slice")
+                continue
+            good = all(_noline(s[4][0]) == _noline(F) for s in sets)
+            r.check(good, key, where, "%s gives its SliceGenerator the projected form `%s` but fills the derived array's depth cache from %s: the lazily picked field then reports the record's depths instead of its own"
+                    % (f["qual"], F[1], [str(_noline(s[4][0]))[:30] for s in sets if _noline(s[4][0]) != _noline(F)]), detail="depth cache from the projected form")
+    return r.done()
+
+
+# ------------------------------------------------------------------------------------------------
+# L-18  rpad never clips, rpad_and_clip always does
+
+def rule_clip_flag(rep, fb, floor=14, name="FORWARD.clip-flag"):
+    r = rep.rule(name, "every node class's rpad calls rpad_axis0(target, false) and its rpad_and_clip calls rpad_axis0(target, true): the flag is the only difference between the two operations at axis 0", floor=floor)
+    for f in fb.lib_funcs(inst=False):
+        if f["name"] not in ("rpad", "rpad_and_clip"):
+            continue
+        n = 0
+        for m in find_all(f["body"], lambda k: k[0] == "mcall" and k[1] == "rpad_axis0" and len(k[4]) == 2):
+            n += 1
+            want = f["name"] == "rpad_and_clip"
+            got = m[4][1]
+            key = "%s#rpad_axis0#%d" % (f["qual"], n)
+            r.check(got == ("const", want) or got == ("const", int(want)), key, "%s:%d" % (f["file"], m[-1]),
+                    "%s calls rpad_axis0 with clip = %s (expected %s)" % (f["qual"], got[1] if got[0] == "const" else got, str(want).lower()), detail="clip = %s" % str(want).lower())
+    return r.done()
+
+
+# ------------------------------------------------------------------------------------------------
+# L-19  a RecordArray rebuilt field by field keeps its own length
+
+def rule_record_rebuild_length(rep, fb, floor=8, name="REBUILD.record-length"):
+    r = rep.rule(name, "a RecordArray method that applies an (axis, depth) operation, fillna or a dtype conversion to each field and wraps the results in a new RecordArray passes an explicit length "
+                 "(length_ or the operation's own output length), unless every field was first trimmed to length(): the 4-argument constructor takes the minimum field length, and fields may be longer than the record array", floor=floor)
+    names = ("num", "rpad", "rpad_and_clip", "localindex", "combinations", "offsets_and_flattened", "fillna", "numbers_to_type", "reduce_next", "sort_next", "argsort_next")
+    for f in fb.lib_funcs(inst=False):
+        if (f.get("cls") or "") != "RecordArray" or f["name"] not in names:
+            continue
+        n = 0
+        trimmed = bool(find_all(f["body"], lambda k: k[0] == "mcall" and k[1] in ("getitem_range", "getitem_range_nowrap") and len(k[4]) == 2 and k[4][0] == ("const", 0)
+                                and find_all((k[4][1],), lambda m: (m[0] == "mcall" and m[1] == "length") or m == ("member", ("this",), "length_"))))
+        for m in find_all(f["body"], lambda k: k[0] in ("make", "ctor") and str(k[1]) == "RecordArray"):
+            n += 1
+            key = "%s#RecordArray#%d" % (f["qual"], n)
+            explicit = len(m[2]) >= 5
+            r.check(explicit or trimmed, key, "%s:%d" % (f["file"], m[-1] if isinstance(m[-1], int) else f["line"]),
+                    "%s wraps per-field results in a RecordArray without an explicit length although the fields are not trimmed to length(): fields longer than the record array leak extra records" % f["qual"],
+                    detail="explicit length" if explicit else "fields trimmed to length()")
+    return r.done()
